@@ -292,7 +292,7 @@ func (r *c04Run) waitAcked(target int64, d time.Duration) bool {
 }
 
 func runC04(c *vc.Ctx) error {
-	c.Ev.Rule = "instance = 3 vnode processes (real server.Server each) + 4..8 redis clients on 3..6 single-family keys (counter INCR/INCRBY, hash counter HINCRBY, register GETSET/SETNX/DEL, list LPUSH/RPUSH/LPOP/RPOP; unique values; requests to random replicas) + a seeded plan of fault events (kill -9 follower/leader/two in a row, SIGTERM+restart, leader transfer, failpoint sleeps in apply/persist/propose), each injected after a fixed number of further acknowledged writes; after the plan: settle observed (all applied == leader commit twice), final read per key, dump of every replica; oracles: equal dumps, unique-value accounting, porcupine per key with open (unknown-outcome) operations. Plus directed scenarios for the node-local pre-check path. non-trivial = instance with >=1 fault event after whose injection >=1 write was acknowledged; fingerprint = engine/options/instance seed/sequence of executed fault kinds"
+	c.Ev.Rule = "instance = 3 vnode processes (real server.Server each) + 4..8 redis clients on 3..6 single-family keys (counter INCR/INCRBY, hash counter HINCRBY, register GETSET/SETNX/DEL, list LPUSH/RPUSH/LPOP/RPOP; unique values; requests to random replicas) + a seeded plan of fault events (kill -9 follower/leader/two in a row, SIGTERM+restart, leader transfer, failpoint sleeps in apply/persist/propose), each injected after a fixed number of further acknowledged writes; after the plan: settle observed (all applied == leader commit twice), final read per key, dump of every replica; oracles: equal dumps, unique-value accounting, porcupine per key with open (unknown-outcome) operations. Plus directed scenarios: node-local pre-check path (lagging follower), and follower-ack durability (third replica down, follower crashed by failpoint between the early-send position and its WAL write at Readys with new entries and unchanged HardState, leader SIGKILLed right after, both restarted, old leader rejoins; judged after all three are settled). non-trivial = instance with >=1 fault event after whose injection >=1 write was acknowledged; fingerprint = engine/options/instance seed/sequence of executed fault kinds"
 	c.Ev.Assume("only writes that go through the raft log are in the history; reads during the run are leader-local by design and not checked")
 	c.Ev.Assume("kill -9 keeps the page cache: fsync placement is not decided here")
 	c.Ev.Assume("engines pebble and mem only (rocksdb engine is not runnable in this sandbox)")
@@ -303,13 +303,18 @@ func runC04(c *vc.Ctx) error {
 	}
 	nRandom := c.Pick(3, 40)
 	nDirected := c.Pick(1, 3)
-	par := c.Pick(4, 4)
+	par := c.Pick(5, 4)
 	type job struct{ inst *C04Instance }
 	var jobs []job
 	for i := 0; i < nDirected; i++ {
 		rng := c.Rand(int64(4900 + i))
 		jobs = append(jobs, job{&C04Instance{Index: 1000 + i, Seed: rng.Int63(), Directed: "precheck",
 			Opts: ClusterOpts{N: 3, Engine: []string{"pebble", "mem"}[(i+int(c.Seed))%2], SnapCount: 20, SnapCatchup: 5, KeepBackup: 2, ElectionTick: 10}}})
+	}
+	for i := 0; i < c.Pick(1, 4); i++ {
+		rng := c.Rand(int64(4950 + i))
+		jobs = append(jobs, job{&C04Instance{Index: 1100 + i, Seed: rng.Int63(), Directed: "follower-ack", Clients: 2, Keys: 3,
+			Opts: ClusterOpts{N: 3, Engine: []string{"mem", "pebble"}[(i+int(c.Seed))%2], SnapCount: 20, SnapCatchup: 5, KeepBackup: 2, ElectionTick: 10}}})
 	}
 	for i := 0; i < nRandom; i++ {
 		inst := genC04Instance(c, i)
@@ -404,6 +409,11 @@ func runC04Instance(c *vc.Ctx, inst *C04Instance, attempt int) (inconclusive str
 	var directedNote string
 	if inst.Directed == "precheck" {
 		directedNote, inconclusive = r.directedPrecheck()
+		if inconclusive != "" {
+			return inconclusive
+		}
+	} else if inst.Directed == "follower-ack" {
+		directedNote, inconclusive = r.directedFollowerAck()
 		if inconclusive != "" {
 			return inconclusive
 		}
@@ -895,4 +905,89 @@ func (r *c04Run) directedPrecheck() (note string, inconclusive string) {
 		}
 	}
 	return swallowedNote[min(2, len(swallowedNote)):] + " | " + fmt.Sprintf("directed pre-check scenario: %d rounds, follower apply delayed by %d ms per entry, %d stale-looking replies (setnx->0 after acknowledged del / lpop->nil after acknowledged push)", rounds, lagMs, stale), ""
+}
+
+// directedFollowerAck steers into "a follower acknowledges entries that are
+// not yet in its WAL": the third replica is down, so every acknowledged write
+// depends on follower F alone; F is killed by a failpoint between the place
+// where a Ready's messages could be sent early and the WAL write (only at
+// Readys that carry new entries without publishing committed ones, i.e. whose
+// HardState is unchanged), then the leader is lost as well; F and the third
+// replica come back and form a majority, later the old leader rejoins. All of
+// it under clients; the common oracles judge after all three are settled. On
+// correct code F persists before it acknowledges, so whatever a client saw
+// succeed is in F's WAL.
+func (r *c04Run) directedFollowerAck() (note string, inconclusive string) {
+	cl, w := r.cl, r.w
+	rounds := r.c.Pick(3, 5)
+	points := []string{"wal.save.betweenEntriesAndState", "wal.save.betweenEntriesAndState", "node.raft.beforePersist"}
+	fired := 0
+	w.setTargets()
+	w.start(r.inst.Clients, r.inst.Seed, 9*time.Second)
+	defer w.stopAndWait()
+	id := func(i int) uint64 { return cl.Nodes[i].ID }
+	for round := 0; round < rounds; round++ {
+		leader := r.waitLeader(40 * time.Second)
+		if leader < 0 {
+			return "", "follower-ack: no leader"
+		}
+		f := r.pickByRole("follower", leader)
+		t := 3 - leader - f
+		L, F, T := cl.Nodes[leader], cl.Nodes[f], cl.Nodes[t]
+		w.setTargets(id(leader), id(f))
+		T.Kill()
+		if !r.waitAcked(atomic.LoadInt64(&w.acked)+60, 60*time.Second) {
+			return "", "follower-ack: no progress with two replicas"
+		}
+		// in the critical phase every write goes through the leader, so that the entry F
+		// acknowledges last belongs to a client that gets its reply from the (surviving) leader
+		w.setTargets(id(leader))
+		if !r.waitAcked(atomic.LoadInt64(&w.acked)+20, 60*time.Second) {
+			return "", "follower-ack: no progress through the leader"
+		}
+		pt := points[round%len(points)]
+		k := 3 + r.rng.Intn(25)
+		F.ExpectDown()
+		if err := F.SetFailpoint(pt, fmt.Sprintf("unless(node.raft.afterPublish>node.raft.beforeAdvance):%d*off->crash", k)); err != nil {
+			return "", "follower-ack: " + err.Error()
+		}
+		if F.WaitExit(15 * time.Second) {
+			fired++
+		} else {
+			F.Kill()
+		}
+		time.Sleep(150 * time.Millisecond) // the leader answers what it could commit on F's last acknowledgement
+		L.Kill()
+		w.setTargets()
+		if err := F.Start("", int64(F.ID)); err != nil {
+			return "", "follower-ack: " + err.Error()
+		}
+		if err := T.Start("", int64(T.ID)); err != nil {
+			return "", "follower-ack: " + err.Error()
+		}
+		for _, n := range []*Node{F, T} {
+			if _, err := n.WaitUp(60 * time.Second); err != nil {
+				return "", "follower-ack: " + err.Error()
+			}
+		}
+		if r.waitLeader(60*time.Second) < 0 {
+			return "", "follower-ack: no leader among the two restarted replicas"
+		}
+		w.setTargets(id(f), id(t))
+		if !r.waitAcked(atomic.LoadInt64(&w.acked)+40, 60*time.Second) {
+			return "", "follower-ack: no progress after the two replicas came back"
+		}
+		if err := L.Start("", int64(L.ID)); err != nil {
+			return "", "follower-ack: " + err.Error()
+		}
+		if _, err := L.WaitUp(60 * time.Second); err != nil {
+			return "", "follower-ack: " + err.Error()
+		}
+		w.setTargets(id(0), id(1), id(2))
+		if !r.waitAcked(atomic.LoadInt64(&w.acked)+30, 60*time.Second) {
+			return "", "follower-ack: no progress after the old leader came back"
+		}
+		r.inst.Plan = append(r.inst.Plan, FaultEvent{Kind: "follower-ack-round", Point: pt, Targets: []uint64{T.ID, F.ID, L.ID}, T0: r.nowMs(), Note: fmt.Sprintf("k=%d", k)})
+	}
+	return fmt.Sprintf("directed follower-ack-durability: %d rounds (third replica down, follower killed by failpoint between early-send position and WAL write at a Ready with new entries and no publish, then leader SIGKILLed, both restarted, old leader rejoins), failpoint fired in %d rounds", rounds, fired), ""
 }
